@@ -17,9 +17,10 @@ META = {
     "level_note": "Trusted: Coq kernel + vm_compute; the reference semantics Lua/Sem.v and Lib/F64.v (specification; "
                   "pow only on the cases F64.fpow defines); harness + astdump printer. Preconditions of the theorems (decidable, from the property's own exclusion of points where Lua 5.1 and "
                   "Luau disagree): deep_safe (number rendering in `..`, Luau `%`), ctor_pure, env_plain.",
-    "trusted_base": ["Coq 8.16.1 kernel, vm_compute", "Lua/Sem.v reference semantics + Lib/F64.v (specification)",
+    "trusted_base": ["Coq 8.16.1 kernel, vm_compute", "standard-library axioms via Flocq (validity of binary_round_aux): sig_not_dec, sig_forall_dec, functional_extensionality_dep, classic", "Lua/Sem.v reference semantics + Lib/F64.v (specification)",
                      "harness/crates/c08 + astdump (AST printer)", "Rust f64 arithmetic = IEEE binary64"],
-    "allowed_axioms": [],
+    "allowed_axioms": ["ClassicalDedekindReals.sig_not_dec", "ClassicalDedekindReals.sig_forall_dec",
+                       "FunctionalExtensionality.functional_extensionality_dep", "Classical_Prop.classic"],
     "rule": "every leaf of a 64-leaf alphabet alone and under each unary operator; all binary operators over leaf pairs "
             "(sampled 1/12 in quick, exhaustive in thorough); seeded random trees to depth 4 over all 19 expression kinds; "
             "non-trivial = the evaluator returns a known value or claims purity for a non-leaf expression; distinct by printed term",
